@@ -273,7 +273,7 @@ func RunTrace(hdr, out string, n int, seed int64) (*TraceStats, error) {
 				act = graph.M{"name": m, "x": graph.M{"from": from, "to": to, "ds": ds}}
 			}
 			msg := s.buildMsg(act)
-			outcome, detail, _, res := e.Deliver(ctx, msg)
+			outcome, detail, events, res := e.Deliver(ctx, msg)
 			if outcome == "panic" {
 				// baseapp recovers a handler panic: the transaction fails and its writes are dropped - a rejection for the specification
 				st.Panics = append(st.Panics, graph.Str(ev["m"])+": "+detail)
@@ -282,6 +282,26 @@ func RunTrace(hdr, out string, n int, seed int64) (*TraceStats, error) {
 			}
 			ev["ev"], ev["ok"] = "msg", outcome == "ok"
 			ev["post"] = s.postOf(s.project(ctx))
+			if m := graph.Str(ev["m"]); (m == "withdraw" || m == "send") && outcome == "ok" {
+				// the typed withdrawal events of this message: pool and amount
+				evs := []any{}
+				for _, x := range events {
+					if x.Type != "chain4energy.c4echain.cfevesting.WithdrawAvailable" {
+						continue
+					}
+					pm, err := sdk.ParseTypedEvent(x)
+					if err != nil {
+						return nil, fmt.Errorf("typed event: %w", err)
+					}
+					w := pm.(*vtypes.WithdrawAvailable)
+					c, err := sdk.ParseCoinNormalized(w.Amount)
+					if err != nil {
+						return nil, fmt.Errorf("typed event amount %q: %w", w.Amount, err)
+					}
+					evs = append(evs, graph.M{"pool": w.VestingPoolName, "amount": c.Amount.Int64(), "denom": c.Denom})
+				}
+				ev["events"] = evs
+			}
 			if graph.Str(ev["m"]) == "withdraw" && outcome == "ok" && res != nil {
 				for _, r := range res.MsgResponses {
 					if wr, ok := r.GetCachedValue().(*vtypes.MsgWithdrawAllAvailableResponse); ok {
